@@ -2,7 +2,7 @@
     followed by [Print Assumptions]. *)
 From Coq Require Import ZArith.
 From OCI Require Import Machine Checkers.
-From OCI.proofs Require Import ArithOk Trace InvKnown ChkKnown IterBase ChkIter ChkAll.
+From OCI.proofs Require Import ArithOk Trace InvKnown ChkKnown IterBase ChkIter ChkIterH ChkAll.
 Open Scope N_scope.
 
 Check iter_mutex : forall e, iter_env e -> forall progs, wf_progs progs -> forall sched,
